@@ -1013,8 +1013,9 @@ class ConfigInformation:
 
         # --- Submit the job
 
-        # Sets the init tasks
-        self.init_tasks = init_tasks
+        # Sets the init tasks (our own list: the caller can go on using its
+        # list, and the default value is shared by all calls)
+        self.init_tasks = list(init_tasks)
 
         # Creates a new job
         self.job = self.xpmtype.task(
